@@ -257,7 +257,7 @@ def bounded(tier, seed):
     f = builtin_cases()
     if f:
         return n, f, {'case': 'builtin'}
-    for s in range(150 if tier == 'thorough' else 40):
+    for s in range(1500 if tier == 'thorough' else 40):
         sc = build_scenario(rnd)
         for k in range(25):
             n += 1
